@@ -289,6 +289,10 @@ def check(ctx):
         c12.container_ops(ctx, "C03.e", start, ty, pending_field(prog, ty, prep) or "?",
                           {"first-match-search", "order-preserving-remove", "lookup"}, ["first-match-search"], "%s::start" % tname)
 
+    # ---- C03.h the trackers' state is written only by their own prepare / start / end (who-writes table) ----
+    import writers
+    nwr = writers.check(ctx, "C03.h", ["EventAccessTracker", "EntityReactionAccessTracker", "SystemEventAccessTracker", "DespawnAccessTracker"])
+    ctx.notes.append("who-writes table: %d tracker fields with pinned writers checked" % nwr)
     # ---- C03.c reader gating ----
     readers = reader_types(prog, trackers)
     ctx.floor("C03.c", len(readers), 8, "reader types holding a tracker")
